@@ -745,6 +745,32 @@ func seeds4() [][]byte {
 	st := pkt.V4{Op: 1, HType: 1, HLen: 6, Xid: 0x5a, Opts: []pkt.Opt4{{Code: 53, Data: []byte{1}}}}
 	copy(st.CHAddr[:], []byte{2, 0, 0, 0, 0x5a, 1})
 	out = append(out, st.Bytes())
+	// sizes the client announces and sizes it causes: maximum message size (option 57) x
+	// long echoed options (client identifier, relay agent information) x cascade branch
+	for _, mms := range []int{-1, 0, 68, 300, 576, 1500, 65535} {
+		for _, l61 := range []int{7, 255} {
+			for _, l82 := range []int{-1, 100, 255} {
+				for variant := 0; variant < 3; variant++ {
+					j := pkt.V4{Op: 1, HType: 1, HLen: 6, Xid: 0x39, Opts: []pkt.Opt4{{Code: 53, Data: []byte{1 + 2*byte((variant+l61)%2)}}}}
+					copy(j.CHAddr[:], []byte{2, 0, 0, 0, 0x39, byte(variant)})
+					switch variant {
+					case 1:
+						j.GI = [4]byte{10, 10, 10, 254}
+					case 2:
+						j.Flags = 0x8000
+					}
+					if mms >= 0 {
+						j.Opts = append(j.Opts, pkt.Opt4{Code: 57, Data: []byte{byte(mms >> 8), byte(mms)}})
+					}
+					j.Opts = append(j.Opts, pkt.Opt4{Code: 61, Data: bytes.Repeat([]byte{0x43}, l61)}, pkt.Opt4{Code: 55, Data: []byte{1, 3, 6, 15, 51, 54, 119, 121}})
+					if l82 >= 0 {
+						j.Opts = append(j.Opts, pkt.Opt4{Code: 82, Data: append([]byte{1, byte(l82 - 2)}, bytes.Repeat([]byte{0x52}, l82-2)...)})
+					}
+					out = append(out, j.Bytes())
+				}
+			}
+		}
+	}
 	// the largest datagrams a UDP socket can deliver (65 507 octets) and the largest the
 	// receive buffer holds (65 535): filled with an option that the reply echoes (client
 	// identifier / relay agent information, split over consecutive instances per RFC 3396) or
